@@ -93,6 +93,7 @@ type normState struct {
 	overlay  map[string][]byte
 	check    *checkSpec
 	keepUsed map[types.Object]bool
+	typeArgs map[types.Object]string // type parameters of the generic callee being inlined → source text of the type arguments
 }
 
 func canonFuncSet() map[string]canonFunc {
@@ -480,6 +481,9 @@ func normalizeTree(repo string, extraEnv []string, overlay map[string][]byte) (m
 		pendingNotes = nil
 		ns := &normState{pkgs: mp, fset: fset, overlay: cur, keepUsed: map[types.Object]bool{}}
 		es := ns.planRenames()
+		if len(es) == 0 {
+			es = ns.planFolds()
+		}
 		if len(es) == 0 {
 			var inl map[string]bool
 			es, inl = ns.planInlines()
